@@ -112,11 +112,11 @@ func directedScalarValues(s string) []*aval {
 		r = append(r, &aval{kind: "bool", b: true}, &aval{kind: "bool", b: false})
 	case "SFloat":
 		for _, b := range floatBits32 {
-			r = append(r, aFloat(b))
+			r = append(r, aFloat32(b))
 		}
 	case "SDouble":
 		for _, b := range floatBits64 {
-			r = append(r, aFloat(b))
+			r = append(r, aFloat64(b))
 		}
 	case "SAscii":
 		r = append(r, aBytes([]byte{}), aBytes([]byte("a")), aBytes([]byte{0, 127}), aBytes(make([]byte, 70000)))
@@ -169,7 +169,9 @@ func cmdDirected(quick bool) {
 				}
 				// quick tier: every representation still sees the extremes, the first values (0, +-1 / the spec table for the
 				// preferred representation) and a rotating quarter of the boundary set
-				if quick && !(ai < 2 || ai >= len(vals)-2 || (ai+si)%4 == 0 || (si == 0 && (s == "SVarint" || len(vals) <= 16))) {
+				// ... and the values at the boundaries of the representation's own Go type (repEdge), whatever the CQL type
+				extreme := ai < 2 || ai >= len(vals)-2 || repEdge(sr, a)
+				if quick && !(extreme || (ai+si)%4 == 0 || (si == 0 && (s == "SVarint" || len(vals) <= 16))) {
 					continue
 				}
 				if len(a.bs) > 60000 && sr.name != scalarReps(s)[0].name {
@@ -177,7 +179,7 @@ func cmdDirected(quick bool) {
 				}
 				r := &rep{t: t, kind: "scalar:" + sr.name, gt: sr.gt, s: sr}
 				emit(t, r, a, primitive.ProtocolVersion4)
-				if sr.gt != tBigPtr && len(a.bs) < 1000 && (ai+si)%3 == 0 {
+				if !isBigPtr(sr.gt) && len(a.bs) < 1000 && ((ai+si)%3 == 0 || (extreme && (a.kind == "float" || repEdge(sr, a)))) {
 					emit(t, ptrTo(r), a, primitive.ProtocolVersion2)
 				}
 			}
@@ -257,7 +259,7 @@ func cmdDirected(quick bool) {
 	// (3b) a Go map with a NaN key: the extractor looks every key up again (MapIndex), which never finds a NaN
 	{
 		tm := mapT(scalarT("SDouble"), i32)
-		m := &aval{kind: "map", pairs: [][2]*aval{{aFloat(0x7ff8000000000000), vint(5)}}}
+		m := &aval{kind: "map", pairs: [][2]*aval{{aFloat64(0x7ff8000000000000), vint(5)}}}
 		rec := runCase("nan0", tm, g.plan(tm, []*aval{m}, false, true), m, primitive.ProtocolVersion4)
 		rec.Kind = "nan-key"
 		hlib.Emit(rec)
